@@ -46,15 +46,21 @@ def main():
     except Exception as e:
         # Last line of defence.  Every harness feeds the real code inputs that are valid for the property;
         # if an exception escapes a harness and was RAISED INSIDE pulsarbat itself, the code under test
-        # refused a valid input: that is a finding (it cannot happen on a tree that passes).  Anything
-        # raised elsewhere (harness, NumPy on a malformed result, TLC) stays a machinery failure.
+        # refused a valid input: that is a finding (it cannot happen on a tree that passes).  The same holds
+        # when the exception came out of a library pulsarbat called (SciPy refusing what pulsarbat handed
+        # it).  Anything raised without pulsarbat on the stack (harness, NumPy on a malformed result, TLC)
+        # stays a machinery failure.
         tb = traceback.extract_tb(e.__traceback__)
-        site = tb[-1].filename if tb else ""
         pkg = os.path.join(os.path.realpath(REPO), "pulsarbat") + os.sep
-        if os.path.realpath(site).startswith(pkg):
-            chk.violation("real-code-raised:%s:%s" % (os.path.basename(site), type(e).__name__),
-                          "pulsarbat raised %r at %s:%d (%s) on an input the harness treats as valid"
-                          % (e, site, tb[-1].lineno, tb[-1].name),
+        inside = [f for f in tb if os.path.realpath(f.filename).startswith(pkg)]
+        if type(e).__name__ == "LazyResultFailed":
+            chk.violation("lazy-result-cannot-be-computed", str(e)[:500],
+                          {"kind": "escaped-exception", "traceback": traceback.format_exc()[-3000:]})
+        elif inside:
+            fr = inside[-1]     # innermost pulsarbat frame (the exception may have come out of a library it called)
+            chk.violation("real-code-raised:%s:%s" % (os.path.basename(fr.filename), type(e).__name__),
+                          "pulsarbat raised / propagated %r at %s:%d (%s) on an input the harness treats as valid"
+                          % (e, fr.filename, fr.lineno, fr.name),
                           {"kind": "escaped-exception", "traceback": traceback.format_exc()[-3000:]})
         else:
             chk.machinery_errors.append(traceback.format_exc())
